@@ -317,3 +317,56 @@ META["C12"] = {
                    "Exploration."),
     "level_note": "Trusted: pointer identity as the notion of aliasing; sync.Pool may drop nodes (fewer re-uses under -race), which only lowers the non-trivial share.",
 }
+
+add("C05", "TestC05", note_current=True,
+    rule=("Cases: a declaration hierarchy of <= 7 declarations, depth <= 4, names from {A,B,C,D} (repeated names frequent), groups (also "
+          "with a group as first member), min in {0,1,2}, max in {1,2,3,unbounded}, one target at a uniformly drawn node; rendered as edi "
+          "segment_declarations, csv2 records or fixedlength2 envelopes (header-regex, header+footer, rows 1-2); a unit sequence that is "
+          "mostly a valid-by-construction instance with 0-2 insert/delete/duplicate/swap edits (for EDI sometimes a second top-level "
+          "round), in ~10% uniformly random over the names plus an undeclared X (length <= 12); variants: empty input, blank lines, LF or "
+          "CRLF, unterminated final unit, several EDI segment delimiters, ignore_crlf. Every unit carries a unique id that the schema "
+          "reads into the delivered tree. Oracle: model.Greedy (recursive greedy non-backtracking matcher incl. the EDI top-level "
+          "repetition pinned by the repo's test) - same target trees from RawRecord().Raw(), same count, same terminal kind, same copy() "
+          "JSON; EDI tokenizer observed directly. Thorough tier adds TestC05Enum: per drawn hierarchy ALL unit sequences up to length 6 "
+          "over its alphabet plus X. Non-trivial: the model makes >= 1 move-on decision and >= 1 repeat; distinct by SHA-256 of the case."),
+    quick={"checks": 2500, "shards": 4, "timeout": 900},
+    thorough={"checks": 60000, "shards": 16, "timeout": 3300, "extra": [{"test": "TestC05Enum", "checks": 25, "shards": 16}]},
+    floors={"outcome=fatal": 0.30, "target-in-group": 0.20, "format=edi": 0.15, "format=csv2": 0.15, "format=fixedlength2": 0.15,
+            "no-final-terminator": 0.08, "blank-lines": 0.10, "empty-input": 0.03, "edi-root-repeats": 0.01,
+            "group-first-member-is-group": 0.15, "__nontrivial__": 0.15},
+    assumptions=["max = 0 is excluded (the statement says max in {1,2,...,unbounded}); header/footer regexes are anchored literals",
+                 "the EDI top-level declaration list may repeat under a fresh root (pinned by edi/reader_test.go 'multiple root level segments, success')"])
+
+add("C07", "TestC07",
+    rule=("Cases: delimiters as 1-3-rune strings drawn without replacement from 22 punctuation and multi-byte runes (segment delimiter "
+          "also LF, CRLF, rune+LF, doubled rune; component / repetition delimiters optional; release character one rune in ~80%; "
+          "ignore_crlf only when no delimiter contains CR/LF); 1-4 segments of 0-5 elements, or 20-40, or a 100-160-rune value, or a value "
+          "> 4096 bytes, split into repetitions and components; with a release character the value alphabet is dominated by delimiter "
+          "and release runes; element declarations (index, component_index, default, empty_if_missing, out-of-range, ~1 in 8 a second "
+          "declaration on the same element). Oracle: own escaper/writer; edi.NewNonValidatingReader must return exactly the written "
+          "pieces (name, raw, elements with indexes) and the full edi format the logical (unescaped) values, defaults or a fatal error "
+          "for a missing element. Non-trivial: some value contains an escaped rune, or a segment exceeds 128 bytes, or a multi-rune "
+          "delimiter is in use; distinct by SHA-256 of the case."),
+    quick={"checks": 3000, "shards": 4, "timeout": 900},
+    thorough={"checks": 25000, "shards": 16, "timeout": 3300},
+    floors={"escaped": 0.40, "segment>128": 0.30, "multi-rune-delimiter": 0.25, "segment>4096": 0.02, "two-declarations-same-element": 0.08,
+            "ignore-crlf": 0.10, "newline-delimiter": 0.10, "stray-cr": 0.03, "crlf-only-token": 0.04, "no-release-char": 0.08,
+            "outcome=fatal": 0.08, "__nontrivial__": 0.60},
+    assumptions=["delimiter strings are built from disjoint rune sets (no delimiter is a substring of another or contains the release character)",
+                 "CR/LF occur as data only where no documented rule removes them; segment names are free of delimiter runes"])
+
+META["C05"] = {
+    "technique": "model-based property-based testing vs a recursive greedy reference matcher + small-scope enumeration (thorough)",
+    "design_ref": "DESIGN.md §5 C05",
+    "level_text": ("Generated hierarchies and unit sequences for edi, csv2 and fixedlength2 judged by an independent recursive matcher: same "
+                   "delivered trees (every input unit is identifiable in the tree), same terminal kind. The thorough tier enumerates all "
+                   "sequences up to 6 units for each drawn hierarchy (small-scope exhaustive per hierarchy, sampled over hierarchies)."),
+    "level_note": "Trusted: model.Greedy (written from the docs; the EDI top-level repetition follows an existing test). max=0 and unanchored regexes excluded.",
+}
+META["C07"] = {
+    "technique": "round-trip property-based testing (own escaper/writer vs tokenizer and element nodes)",
+    "design_ref": "DESIGN.md §5 C07",
+    "level_text": ("Generated delimiter configurations and logical segments written by an own escaper; the non-validating reader and the full "
+                   "edi format must give back exactly the logical pieces. Exploration."),
+    "level_note": "Trusted: the harness' EDI writer. Delimiter sets are disjoint by construction (overlapping delimiters are C03's domain).",
+}
